@@ -6,25 +6,32 @@
   `dec` (AES-CBC decryption), `pointOk`, `macOk` (ECIES validity) are universally quantified
   parameters; `R` ranges over connections (`flat`, `chunked`, anything `Lawful`).
 
-  FULL statements demanded by the property, and their status on the code as it is:
+  The `…Fixed` definitions are THE CODE AS IT IS NOW (they are what the driver runs and what the
+  correspondence sweep compares with /repo).  The un-suffixed `run`, `unpackFrame`, `hsStep`,
+  `eciesOpen` are the code BEFORE the repair commits
+      ba190d7 (aes.go: AesDecrypt length check)      1eafa5e (peer.go: unpackFrame ≥ 4 bytes)
+      529e8a0 (handshake.go: MaxPackageLength bound)  fdba898 (ecies.go: whole IV block)
 
-  * parse_total        ∀ dec cfg s ev, ev ∈ run dec cfg s → ev is not a panic
-        FALSE on the faithful model:  `parse_total_refuted_cryptBlocks` (7 bytes, any key),
-        `parse_total_refuted_shortPlain` (22 bytes).  Exact guard: `parse_total_partial` /
-        `parse_panic_of_unguarded` (panic ⇔ some frame cut by the reader violates `FrameGuard`).
-        PROVED for the repaired parser: `parseFixed_total`; the repair is invisible on guarded
-        streams: `parseFixed_agrees`.
-  * hs_total           the pre-handshake reader never panics
-        FALSE: `hs_total_refuted` (104 bytes from an unauthenticated remote); exact guard
-        `eciesOpen_panic_iff`; PROVED for the repair: `hsFixed_total`.
-  * parse_alloc_bound  bytes requested per frame ≤ 6 + 2·MaxPackageLength
-        TRUE for the frame reader: `parse_alloc_bound` (+ `parse_alloc_complete`: a completely
-        received frame of n content bytes costs exactly 6 + 2n).
-        FALSE for the pre-handshake reader: `hs_alloc_bound_refuted` (6 bytes ⇒ 1 GiB);
-        `hs_alloc_partial` (bound with the code's own 1 GiB constant), PROVED for the repair:
-        `hsFixed_alloc_bound`.
-  * split_invariant    TRUE: `split_invariant`, `hs_split_invariant` (also for the repairs).
-  * code_range         TRUE: `code_range` (only codes ≤ 0x1F, never the heartbeat, reach the dispatcher).
+  HEADLINE — the FULL statements of the property, proved for the code as it is now:
+  * parse_total        `parseFixed_total`, `parseFixed_total_chunked`: ∀ cipher, constants, byte
+                       stream, segmentation: no event of the read loop is a panic.
+  * hs_total           `hsFixed_total`: the pre-handshake reader never panics.
+  * parse_alloc_bound  `parse_alloc_bound` (one read-loop step requests ≤ 6 + 2·MaxPackageLength;
+                       `parse_alloc_complete`: a completely received frame of n bytes costs 6 + 2n)
+                       and `hsFixed_alloc_bound` (same constant for the pre-handshake reader).
+  * split_invariant    `split_invariant_fixed`, `hsFixed_split_invariant` (and the pre-repair forms).
+  * code_range         `code_range_fixed`, `code_range_fixed_chunked`: only codes ≤ 0x1F, never the
+                       heartbeat, reach the dispatcher.
+  * `parseFixed_agrees`: the repairs change nothing on streams that did not crash the old code.
+
+  DOCUMENTATION of what the repairs close (about the code before the commits above):
+  * `parse_total_refuted_cryptBlocks` (7 bytes, any key), `parse_total_refuted_shortPlain`
+    (22 bytes), `parse_total_false`; exact guard `parse_total_partial` / `parse_panic_of_unguarded`
+    / `unpackFrame_panic_iff` (panic ⇔ some frame cut by the reader violates `FrameGuard`).
+  * `hs_total_refuted` (104 bytes from an unauthenticated remote), exact guard
+    `eciesOpen_panic_iff`, `hs_total_partial`.
+  * `hs_alloc_bound_refuted` (6 bytes ⇒ 1 GiB), `hs_alloc_partial`.
+  The same witnesses evaluated on the current model: `witness_*_now`.
 -/
 import LemoModel.Frame
 import LemoProofs.Lemmas.FrameLemmas
@@ -210,7 +217,7 @@ theorem runWith_panic_of_unguarded {σ : Type} (dec : Bytes → Bytes) (R : Read
         · obtain ⟨s, hs⟩ := ih st' ⟨c0, hc0, hng⟩
           exact ⟨s, by simp [hs]⟩
 
-/-- PARTIAL form of `parse_total`: if every frame the reader cuts out of the stream has a content
+/-- (code before commits ba190d7 / 1eafa5e) PARTIAL form of `parse_total`: if every frame the reader cuts out of the stream has a content
     length that is a multiple of 16 and (when the padding is valid) at least 4 bytes of plaintext,
     the read loop does not panic. -/
 theorem parse_total_partial (dec : Bytes → Bytes) (cfg : Cfg) (s : Bytes)
@@ -218,26 +225,28 @@ theorem parse_total_partial (dec : Bytes → Bytes) (cfg : Cfg) (s : Bytes)
     ∀ ev ∈ run dec cfg s, ev.isPanic = false :=
   runWith_no_panic_of_guard dec flat cfg (s.length + 1) s hg
 
-/-- the guard is exact: one unguarded frame and the process dies -/
+/-- (code before commits ba190d7 / 1eafa5e) the guard is exact: one unguarded frame and the
+    process dies -/
 theorem parse_panic_of_unguarded (dec : Bytes → Bytes) (cfg : Cfg) (s : Bytes)
     (hg : ∃ c ∈ contents dec cfg s, ¬ FrameGuard dec c) :
     ∃ site, Ev.panic site ∈ run dec cfg s :=
   runWith_panic_of_unguarded dec flat cfg (s.length + 1) s hg
 
-/-! ### refutations of `parse_total` on the code as it is -/
+/-! ### refutations of `parse_total` on the code before commits ba190d7 / 1eafa5e -/
 
-/-- `5a 48 | 00 00 00 01 | ff` — whatever the session key: CryptBlocks on 1 byte -/
+/-- the code before commit ba190d7: `5a 48 | 00 00 00 01 | ff` — whatever the session key:
+    CryptBlocks on 1 byte -/
 theorem parse_total_refuted_cryptBlocks (dec : Bytes → Bytes) :
     run dec realCfg [0x5a, 0x48, 0, 0, 0, 1, 0xff] = [.panic .cryptBlocks] := by
   rfl
 
-/-- a correctly encrypted frame whose plaintext is empty (one block of padding 0x10):
-    `originData[:4]` succeeds (capacity 16) and `originData[4:]` panics -/
+/-- the code before commit 1eafa5e: a correctly encrypted frame whose plaintext is empty (one block
+    of padding 0x10): `originData[:4]` succeeds (capacity 16) and `originData[4:]` panics -/
 theorem parse_total_refuted_shortPlain :
     run id realCfg ([0x5a, 0x48, 0, 0, 0, 16] ++ List.replicate 16 0x10) = [.panic .slicePayload] := by
   decide
 
-/-- the full statement is false -/
+/-- the full statement is false for the code before commits ba190d7 / 1eafa5e -/
 theorem parse_total_false :
     ¬ (∀ (dec : Bytes → Bytes) (cfg : Cfg) (s : Bytes), ∀ ev ∈ run dec cfg s, ev.isPanic = false) := by
   intro h
@@ -252,7 +261,7 @@ example :
       ++ [0x5a, 0x48, 0, 0, 0, 16, 0, 0, 0, 1, 12, 12, 12, 12, 12, 12, 12, 12, 12, 12, 12, 12])
       = [.msg 5 3, .hb, .needMore] := by decide
 
-/-! ### the repaired parser is total, and agrees with the code on guarded streams -/
+/-! ### the parser as coded now is total, and agrees with the old code on guarded streams -/
 
 theorem unpackFrameFixed_no_panic (dec : Bytes → Bytes) (c : Bytes) (s : Site) :
     unpackFrameFixed dec c ≠ .panic s := by
@@ -311,8 +320,8 @@ theorem runWith_no_panic {σ : Type} (h : Bytes → Handled) (hh : ∀ c s, h c 
         · rfl
         · exact ih st' ev hev
 
-/-- FULL `parse_total` for the repaired parser: every cipher, every constant, every byte stream,
-    flat or segmented -/
+/-- HEADLINE. FULL `parse_total` for the parser as coded now: every cipher, every constant, every
+    byte stream, flat or segmented -/
 theorem parseFixed_total (dec : Bytes → Bytes) (cfg : Cfg) (s : Bytes) :
     ∀ ev ∈ runFixed dec cfg s, ev.isPanic = false :=
   runWith_no_panic (handleFixed dec)
@@ -372,7 +381,7 @@ theorem runWith_fixed_agrees {σ : Type} (dec : Bytes → Bytes) (R : Reader σ)
         simp only
         rw [ih st' (fun c' hc' => hg c' (by simp [hc']))]
 
-/-- the repair changes nothing on streams that do not crash the current code -/
+/-- the repairs change nothing on streams that did not crash the code before them -/
 theorem parseFixed_agrees (dec : Bytes → Bytes) (cfg : Cfg) (s : Bytes)
     (hg : ∀ c ∈ contents dec cfg s, FrameGuard dec c) :
     runFixed dec cfg s = run dec cfg s :=
@@ -430,8 +439,8 @@ theorem runWith_code_range {σ : Type} (u : Bytes → Unpacked) (R : Reader σ) 
           exact handleWith_deliver u c _ _ hc
         · exact ih st' code n hev
 
-/-- FULL: only codes ≤ 0x1F (and never the heartbeat code) reach the dispatcher — for the code as
-    it is and for the repair, on flat and segmented connections. -/
+/-- FULL: only codes ≤ 0x1F (and never the heartbeat code) reach the dispatcher — before and after
+    the repairs, on flat and segmented connections. -/
 theorem code_range (dec : Bytes → Bytes) (cfg : Cfg) (s : Bytes) (code n : Nat)
     (h : Ev.msg code n ∈ run dec cfg s) : code ≤ 0x1F ∧ code ≠ 1 :=
   runWith_code_range (unpackFrame dec) flat cfg (s.length + 1) s code n h
@@ -443,6 +452,10 @@ theorem code_range_chunked (dec : Bytes → Bytes) (cfg : Cfg) (cs : List Bytes)
 theorem code_range_fixed (dec : Bytes → Bytes) (cfg : Cfg) (s : Bytes) (code n : Nat)
     (h : Ev.msg code n ∈ runFixed dec cfg s) : code ≤ 0x1F ∧ code ≠ 1 :=
   runWith_code_range (unpackFrameFixed dec) flat cfg (s.length + 1) s code n h
+
+theorem code_range_fixed_chunked (dec : Bytes → Bytes) (cfg : Cfg) (cs : List Bytes) (code n : Nat)
+    (h : Ev.msg code n ∈ runFixedC dec cfg cs) : code ≤ 0x1F ∧ code ≠ 1 :=
+  runWith_code_range (unpackFrameFixed dec) chunked cfg (cs.flatten.length + 1) cs code n h
 
 /-! ### split_invariant -/
 
@@ -465,6 +478,12 @@ theorem hs_split_invariant (pointOk macOk : Bytes → Bool) (cfg : Cfg) (cs cs' 
     (h : cs.flatten = cs'.flatten) :
     hsStep pointOk macOk cfg chunked cs = hsStep pointOk macOk cfg chunked cs' := by
   unfold hsStep
+  rw [hsStepWith_sim chunked_sim _ _ cs, hsStepWith_sim chunked_sim _ _ cs', h]
+
+theorem hsFixed_split_invariant (pointOk macOk : Bytes → Bool) (cfg : Cfg) (cs cs' : List Bytes)
+    (h : cs.flatten = cs'.flatten) :
+    hsStepFixed pointOk macOk cfg chunked cs = hsStepFixed pointOk macOk cfg chunked cs' := by
+  unfold hsStepFixed
   rw [hsStepWith_sim chunked_sim _ _ cs, hsStepWith_sim chunked_sim _ _ cs', h]
 
 /-! ### parse_alloc_bound (frame reader) -/
@@ -603,8 +622,9 @@ theorem hsStepWith_alloc_le {σ : Type} (o : Bytes → HsOut × Nat) (ho : ∀ c
             simp only
             omega
 
-/-- the FULL bound demanded of the pre-handshake reader (same constant as for frames) is FALSE:
-    six bytes from an unauthenticated remote make the node request 1 GiB -/
+/-- the code before commit 529e8a0: the FULL bound demanded of the pre-handshake reader (same
+    constant as for frames) is FALSE: six bytes from an unauthenticated remote make the node
+    request 1 GiB -/
 theorem hs_alloc_bound_refuted (p m : Bytes → Bool) :
     (hsStep p m realCfg flat [0x5a, 0x48, 0x40, 0, 0, 0]).alloc = 6 + 1073741824 ∧
     (hsStep p m realCfg flat [0x5a, 0x48, 0x40, 0, 0, 0]).out = .needMore ∧
@@ -614,17 +634,19 @@ theorem hs_alloc_bound_refuted (p m : Bytes → Bool) :
   rw [this]
   decide
 
-/-- PARTIAL: the bound holds with the handshake reader's own constant (PackageMaxLen, 1 GiB) -/
+/-- (code before commit 529e8a0) PARTIAL: the bound holds with the handshake reader's former
+    constant (PackageMaxLen, 1 GiB) -/
 theorem hs_alloc_partial {σ : Type} (p m : Bytes → Bool) (cfg : Cfg) (R : Reader σ) (hR : Lawful R) (st : σ) :
     (hsStep p m cfg R st).alloc ≤ 6 + 2 * cfg.hsMaxLen :=
   hsStepWith_alloc_le _ (eciesOpen_alloc_le p m) cfg.hsMaxLen R hR st
 
-/-- FULL bound for the repaired reader (length limited by MaxPackageLength) -/
+/-- HEADLINE. FULL bound for the pre-handshake reader as coded now (length limited by
+    MaxPackageLength) -/
 theorem hsFixed_alloc_bound {σ : Type} (p m : Bytes → Bool) (cfg : Cfg) (R : Reader σ) (hR : Lawful R) (st : σ) :
     (hsStepFixed p m cfg R st).alloc ≤ 6 + 2 * cfg.maxLen :=
   hsStepWith_alloc_le _ (eciesOpenFixed_alloc_le p m) cfg.maxLen R hR st
 
-/-- exact condition for the ECIES opener to panic: a message with a valid point and a valid MAC
+/-- (code before commit fdba898) exact condition for the ECIES opener to panic: a message with a valid point and a valid MAC
     whose symmetric part is shorter than one AES block (98 ≤ len < 113) -/
 theorem eciesOpen_panic_iff (p m : Bytes → Bool) (c : Bytes) :
     (∃ s a, eciesOpen p m c = (.panic s, a)) ↔
@@ -671,7 +693,7 @@ theorem eciesOpen_panic_iff (p m : Bytes → Bool) (c : Bytes) :
     have h2 : (b :: t).length - 65 - 32 < 16 := by omega
     simp only [hb', if_false, h1, hp, hm, Bool.not_true, Bool.false_eq_true, h2, if_true]
 
-/-- `hs_total` is FALSE on the code as it is: 104 bytes before any authentication -/
+/-- the code before commit fdba898: `hs_total` is FALSE, 104 bytes before any authentication -/
 theorem hs_total_refuted :
     (hsStep (fun _ => true) (fun _ => true) realCfg flat
       ([0x5a, 0x48, 0, 0, 0, 98] ++ (4 :: List.replicate 97 0))).out = .panic .makeslice := by
@@ -711,12 +733,12 @@ theorem hsStepWith_no_panic {σ : Type} (o : Bytes → HsOut × Nat) (ho : ∀ c
             simp only at h
             exact ho c s (o c).2 (by rw [← h])
 
-/-- FULL `hs_total` for the repaired pre-handshake reader -/
+/-- HEADLINE. FULL `hs_total` for the pre-handshake reader as coded now -/
 theorem hsFixed_total {σ : Type} (p m : Bytes → Bool) (cfg : Cfg) (R : Reader σ) (st : σ) (s : Site) :
     (hsStepFixed p m cfg R st).out ≠ .panic s :=
   hsStepWith_no_panic _ (eciesOpenFixed_no_panic p m) cfg.maxLen R st s
 
-/-- PARTIAL `hs_total`: the code as it is does not panic on a message whose ECIES envelope is at
+/-- (code before commit fdba898) PARTIAL `hs_total`: the old code does not panic on a message whose ECIES envelope is at
     least 113 bytes (65 point + 16 IV + 32 tag) or shorter than 98 -/
 theorem hs_total_partial {σ : Type} (p m : Bytes → Bool) (cfg : Cfg) (R : Reader σ) (st : σ) (s : Site)
     (hlen : ∀ n st' c st'', R.readFull n st' = some (c, st'') → c.length < 98 ∨ 113 ≤ c.length) :
@@ -740,5 +762,25 @@ theorem hs_total_partial {σ : Type} (p m : Bytes → Bool) (cfg : Cfg) (R : Rea
             have := (eciesOpen_panic_iff p m c).mp hp
             have := hlen _ _ _ _ hl
             omega
+
+/-! ### the former crash / allocation witnesses, on the code as it is now -/
+
+theorem witness_cryptBlocks_now (dec : Bytes → Bytes) :
+    runFixed dec realCfg [0x5a, 0x48, 0, 0, 0, 1, 0xff] = [.err .badLength] := by
+  rfl
+
+theorem witness_shortPlain_now :
+    runFixed id realCfg ([0x5a, 0x48, 0, 0, 0, 16] ++ List.replicate 16 0x10) = [.err .shortPlain] := by
+  decide
+
+theorem witness_hs_alloc_now (p m : Bytes → Bool) :
+    (hsStepFixed p m realCfg flat [0x5a, 0x48, 0x40, 0, 0, 0]).out = .err .unavailable ∧
+    (hsStepFixed p m realCfg flat [0x5a, 0x48, 0x40, 0, 0, 0]).alloc = 6 :=
+  ⟨by rfl, by rfl⟩
+
+theorem witness_hs_ecies_now :
+    (hsStepFixed (fun _ => true) (fun _ => true) realCfg flat
+      ([0x5a, 0x48, 0, 0, 0, 98] ++ (4 :: List.replicate 97 0))).out = .err .ecies := by
+  decide
 
 end LemoProofs.C15
